@@ -6,8 +6,9 @@
 (*   [t, i, rep, kind, file, off, mask, integ, pre, nf, cls,               *)
 (*    res \in {"ok","error","panic"}, errc, msg, outExists, tmpExists,     *)
 (*    out, ref (page ids), preSame, outDuring,                             *)
-(*    opens = <<  <<plan file, offset asked, bytes that stream delivered>> *)
-(*    ... >> in call order, exp, detectable, mustErr, ms]                  *)
+(*    opens = <<  <<plan file, offset asked, bytes that stream delivered,  *)
+(*    killed by an injected fault>> ... >> in call order,                  *)
+(*    exp, detectable, mustErr, ms]                                        *)
 (* Nothing of Restore.tla is assumed: every value is read from the log.    *)
 (***************************************************************************)
 EXTENDS Integers, Sequences, FiniteSets, TLC, Json
@@ -41,16 +42,17 @@ PreexistingUntouched_ == (Returned /\ cur.pre) => (cur.res = "error" /\ cur.outE
 \* nothing appears at the output path while plan files are still being read (no partial file is ever exposed there)
 NoOutputBeforeComplete_ == ~cur.outDuring
 
-\* transparent retry delivers exactly the original bytes: every stream of a plan file is opened at the first byte
-\* the previous streams of that file have not delivered (no duplicate, no skipped byte on resume)
+\* transparent retry delivers exactly the original bytes: a stream of a plan file that replaces one killed by an
+\* injected fault is opened at the first byte the earlier streams of that file have not delivered (no duplicate, no
+\* skipped byte on resume).  opens[j] = <<file, offset, delivered, faulted>>.
 PrevOpens(o, j) == {i \in 1..(j - 1) : o[i][1] = o[j][1]}
 MaxOf(S) == CHOOSE x \in S : \A y \in S : y <= x
 ResumeExact_ ==
   LET o == cur.opens IN
   \A j \in 1..Len(o) :
     LET P == PrevOpens(o, j) IN
-    IF P = {} THEN o[j][2] = 0
-    ELSE LET i == MaxOf(P) IN o[j][2] = o[i][2] + o[i][3]
+    (P # {}) =>
+      LET i == MaxOf(P) IN (o[i][4] = 1) => (o[j][2] = o[i][2] + o[i][3])
 -----------------------------------------------------------------------------
 V(name, ok) == ok \/ PrintT(<<"VERDICT", name, l, cur.t, cur.i>>)
 NoPanic == V("NoPanic", NoPanic_)
